@@ -52,4 +52,9 @@ inline uint32_t CachedLength(uint32_t height) {
 	static const uint32_t length = 32 * height;
 	return length;
 }
+
+// R-TAINT (divisor): a division by a value taken from a file, with nothing that excludes zero
+inline uint32_t RowsThatFit(uint32_t totalBytes, uint32_t rowBytesFromFile) {
+	return totalBytes / rowBytesFromFile;
+}
 }
